@@ -235,6 +235,8 @@ func C12Scenarios(tier string) []*Scenario {
 		}
 	}
 	out = append(out, c12StringSettings(&n)...)
+	out = append(out, c12WrapUsing(&n)...)
+	out = append(out, c12CtxRegex(&n)...)
 	out = append(out, nestedScenarios(80000, "C12")...)
 	out = append(out, mixedSkipCopyRecursive(85000, "C12")...)
 	sort.SliceStable(out, func(i, j int) bool { return strings.Join(out[i].Global, "\x00") < strings.Join(out[j].Global, "\x00") })
@@ -564,6 +566,131 @@ func mixedSkipCopyRecursive(start int, prop string) []*Scenario {
 				conv.Methods = []*model.Method{mm}
 				sc.Methods = []*ScMethod{{Name: "Convert", Params: "source " + src.Go("conv"), Result: dst.Go("conv"), Lines: boolLine("skipCopySameType", me), M: mm}}
 				sc.Mode = "value,alias,nomutate"
+				out = append(out, sc)
+			}
+		}
+	}
+	return out
+}
+
+// c12WrapUsing: wrapErrorsUsing PKG written at every level combination. The package in effect at the method's own
+// fallible sites is the first defined of (method, converter, command line); generated sub-methods use the first
+// defined of (converter, command line). Both are observed at run time through the wrapper type's VerifPkg().
+func c12WrapUsing(n *int) []*Scenario {
+	var out []*Scenario
+	vals := []string{"", "vx/werr", "vx/werr2"}
+	first := func(xs ...string) string {
+		for _, x := range xs {
+			if x != "" {
+				return x
+			}
+		}
+		return ""
+	}
+	short := func(p string) string { return strings.TrimPrefix(p, "vx/") }
+	for _, cli := range vals {
+		for _, cv := range vals {
+			for _, me := range vals {
+				for _, nested := range []bool{false, true} {
+					*n++
+					id := fmt.Sprintf("%05d", *n)
+					sc := &Scenario{ID: "W" + id, PropGen: "C12", PropVal: "C12", Test: "Convert", Funcs: map[string]string{},
+						Desc: map[string]any{"class": fmt.Sprintf("setting=wrapErrorsUsing nested=%v", nested), "cli": cli, "converter": cv, "method": me}}
+					conv := &model.Converter{OutPkg: "conv/generated", LitPkg: "conv"}
+					sc.Conv = conv
+					sc.Files = map[string]string{"werr/werr.go": werrSource, "werr2/werr.go": strings.ReplaceAll(werrSource, "werr", "werr2")}
+					var mlines []string
+					if cli != "" {
+						sc.Global = []string{"wrapErrorsUsing " + cli}
+					}
+					if cv != "" {
+						sc.ConvLines = []string{"wrapErrorsUsing " + cv}
+					}
+					if me != "" {
+						mlines = []string{"wrapErrorsUsing " + me}
+					}
+					conv.Set.WrapErrorsUsing = first(cv, cli)
+					eff := conv.Set
+					eff.WrapErrorsUsing = first(me, cv, cli)
+					fn := "Wf" + id
+					sc.ConvLines = append(sc.ConvLines, "extend "+fn)
+					sc.FuncsSrc = fmt.Sprintf("func %s(s int) (string, error) {\n\tif s < 0 { return \"\", &Boom{V: s} }\n\treturn fmt.Sprint(\"w\", s), nil\n}\n", fn)
+					conv.Extends = []*model.Custom{{Name: fn, Src: tInt, Dst: tStr, Err: true, ArgsFmt: []string{"src"}}}
+					sc.Funcs[fn] = "conv." + fn
+					s, t := space.S(tInt), space.S(tStr)
+					if nested {
+						sd := &space.Decl{Pkg: "in", Name: "W" + id, Under: space.St(f("V", tInt))}
+						td := &space.Decl{Pkg: "out", Name: "W" + id, Under: space.St(f("V", tStr))}
+						sc.Decls = []*space.Decl{sd, td}
+						s, t = space.S(space.N(sd)), space.S(space.N(td))
+					}
+					mm := &model.Method{Name: "Convert", Src: s, Dst: t, Set: eff, Fields: map[string]*model.FieldCfg{}, HasErr: true}
+					conv.Methods = []*model.Method{mm}
+					sc.Methods = []*ScMethod{{Name: "Convert", Params: "source " + s.Go("conv"), Result: "(" + t.Go("conv") + ", error)", Lines: mlines, M: mm}}
+					sc.Mode = "value,nomutate"
+					outer, inner := eff.WrapErrorsUsing, conv.Set.WrapErrorsUsing
+					switch {
+					case outer == "":
+						sc.Mode += ",nowrap"
+					case !nested:
+						sc.Mode += ",wrapusing,wrappkg:" + short(outer) + ",wrapcount:1"
+					case inner == "":
+						// the method wraps the index, the generated element method does not wrap the field
+						sc.Mode += ",wrapusing-partial,wrappkg:" + short(outer) + ",wrapcount:1"
+					default:
+						sc.Mode += ",wrapusing,wrappkg:" + short(outer) + ",wrappkg-inner:" + short(inner) + ",wrapcount:2"
+					}
+					out = append(out, sc)
+				}
+			}
+		}
+	}
+	return out
+}
+
+// c12CtxRegex: arg:context:regex written at every level combination; the expression in effect for the method's own
+// signature is the first defined of (method, converter, command line). A method whose second parameter is not a
+// context has two sources and must be rejected.
+func c12CtxRegex(n *int) []*Scenario {
+	var out []*Scenario
+	vals := []string{"", "^ctx", "^zzz"}
+	for _, cli := range vals {
+		for _, cv := range vals {
+			for _, me := range vals {
+				*n++
+				id := fmt.Sprintf("%05d", *n)
+				sc := &Scenario{ID: "X" + id, PropGen: "C12", PropVal: "C12", Test: "Convert", Funcs: map[string]string{},
+					Desc: map[string]any{"class": "setting=arg:context:regex", "cli": cli, "converter": cv, "method": me}}
+				conv := &model.Converter{OutPkg: "conv/generated", LitPkg: "conv"}
+				sc.Conv = conv
+				var mlines []string
+				eff := ""
+				if cli != "" {
+					sc.Global = []string{"arg:context:regex " + cli}
+					eff = cli
+				}
+				if cv != "" {
+					sc.ConvLines = []string{"arg:context:regex " + cv}
+					eff = cv
+				}
+				if me != "" {
+					mlines = []string{"arg:context:regex " + me}
+					eff = me
+				}
+				fn := "Xf" + id
+				sc.ConvLines = append(sc.ConvLines, "extend "+fn)
+				sc.FuncsSrc = fmt.Sprintf("// goverter:context qv\nfunc %s(s int, qv string) string { return fmt.Sprint(s, qv) }\n", fn)
+				conv.Extends = []*model.Custom{{Name: fn, Src: tInt, Dst: tStr, Ctx: []*space.Ty{tStr}, ArgsFmt: []string{"src", "ctx:0"}}}
+				sc.Funcs[fn] = "conv." + fn
+				s, t := space.S(tInt), space.S(tStr)
+				mm := &model.Method{Name: "Convert", Src: s, Dst: t, Set: conv.Set, Fields: map[string]*model.FieldCfg{}, CtxTypes: []*space.Ty{tStr}}
+				conv.Methods = []*model.Method{mm}
+				sc.Methods = []*ScMethod{{Name: "Convert", Params: "source " + s.Go("conv") + ", ctxa string", Result: t.Go("conv"), Lines: mlines, M: mm}}
+				sc.SrcIdx, sc.CtxIdx = 0, []int{1}
+				sc.Mode = "value,nomutate"
+				if eff != "^ctx" {
+					sc.Forced, sc.ForcedReject = true, "parameter ctxa is not a context: two source parameters"
+				}
 				out = append(out, sc)
 			}
 		}
